@@ -1,0 +1,125 @@
+//go:build verif
+
+package badger
+
+import (
+	"sync"
+	"time"
+
+	"github.com/dgraph-io/badger/v4/pb"
+)
+
+// Thin test-driver entry points for the /verif "sys" area (engines lock / pipeline / crypto).
+// They only call or read production code and state.
+
+// ---- crypto (C23)
+
+// VerifSysGenerateIV is logFile.generateIV for a log file with the given 12-byte base IV.
+func VerifSysGenerateIV(baseIV []byte, offset uint32) []byte {
+	lf := &logFile{baseIV: baseIV}
+	return lf.generateIV(offset)
+}
+
+// VerifSysLatestDataKey builds an in-memory KeyRegistry in the given state and calls
+// LatestDataKey once. It reports the id of the returned key (0 and isNil for a nil key) and
+// the registry's nextKeyID afterwards.
+func VerifSysLatestDataKey(master []byte, rot time.Duration, lastCreated int64, nextKeyID uint64, has bool) (id uint64, isNil bool, next uint64, err error) {
+	kr := newKeyRegistry(KeyRegistryOptions{EncryptionKey: master, EncryptionKeyRotationDuration: rot, InMemory: true})
+	kr.lastCreated = lastCreated
+	kr.nextKeyID = nextKeyID
+	if has {
+		kr.dataKeys[nextKeyID] = &pb.DataKey{KeyId: nextKeyID, Data: make([]byte, len(master)), CreatedAt: lastCreated, Iv: make([]byte, 16)}
+	}
+	dk, err := kr.LatestDataKey()
+	if err != nil {
+		return 0, false, kr.nextKeyID, err
+	}
+	if dk == nil {
+		return 0, true, kr.nextKeyID, nil
+	}
+	return dk.KeyId, false, kr.nextKeyID, nil
+}
+
+// VerifSysTableIVs: key id and clear-text IVs of one table.
+type VerifSysTableIVs struct {
+	ID       uint64
+	Level    int
+	KeyID    uint64
+	IndexIV  []byte
+	BlockIVs [][]byte
+}
+
+// VerifSysCryptoTables lists the IVs of every table of every level.
+func VerifSysCryptoTables(db *DB) []VerifSysTableIVs {
+	var out []VerifSysTableIVs
+	for li, l := range db.lc.levels {
+		l.RLock()
+		for _, t := range l.tables {
+			iiv, bivs := t.VerifCryptoIVs()
+			out = append(out, VerifSysTableIVs{ID: t.ID(), Level: li, KeyID: t.KeyID(), IndexIV: iiv, BlockIVs: bivs})
+		}
+		l.RUnlock()
+	}
+	return out
+}
+
+// VerifSysDataKey is registry.DataKey(id) of an open DB (key material for an independent decryption).
+func VerifSysDataKey(db *DB, id uint64) ([]byte, error) {
+	dk, err := db.registry.DataKey(id)
+	if err != nil || dk == nil {
+		return nil, err
+	}
+	return append([]byte{}, dk.Data...), nil
+}
+
+// ---- pipeline (C38)
+
+// VerifSysPipeline is a sample of the coarse pipeline state. imm and flushChan are read under one
+// db.lock.RLock (pushers need the write lock), the L0 count under the level's read lock.
+type VerifSysPipeline struct {
+	Imm, FlushLen, FlushCap int
+	WriteChLen, WriteChCap  int
+	L0, L0Stall, L0Tables   int
+	BlockWrites, Closed     bool
+}
+
+func VerifSysPipelineSample(db *DB) VerifSysPipeline {
+	var p VerifSysPipeline
+	db.lock.RLock()
+	p.Imm = len(db.imm)
+	p.FlushLen = len(db.flushChan)
+	p.FlushCap = cap(db.flushChan)
+	db.lock.RUnlock()
+	p.WriteChLen, p.WriteChCap = len(db.writeCh), cap(db.writeCh)
+	p.L0 = db.lc.levels[0].numTables()
+	p.L0Stall = db.opt.NumLevelZeroTablesStall
+	p.L0Tables = db.opt.NumLevelZeroTables
+	p.BlockWrites = db.blockWrites.Load() == 1
+	p.Closed = db.IsClosed()
+	return p
+}
+
+var verifPoolMu sync.Mutex
+
+// VerifSysHoldNextRequest makes the next allocation of a write request from the (emptied)
+// request pool wait for `release`: the caller of sendToWriteCh is then parked between its
+// blockWrites check and its send on writeCh — a schedule point, nothing else changes.
+// `entered` is closed when a caller has arrived. Call the returned restore when done.
+func VerifSysHoldNextRequest(entered chan<- struct{}, release <-chan struct{}) (restore func()) {
+	verifPoolMu.Lock()
+	old := requestPool.New
+	var once sync.Once
+	requestPool.New = func() interface{} {
+		once.Do(func() {
+			close(entered)
+			<-release
+		})
+		return new(request)
+	}
+	verifPoolMu.Unlock()
+	return func() {
+		verifPoolMu.Lock()
+		requestPool.New = old
+		verifPoolMu.Unlock()
+	}
+}
